@@ -518,9 +518,11 @@ class DivPlugin(PrimitiveLeafPlugin):
 
         out_aval_dtype = getattr(getattr(out_var, "aval", None), "dtype", None)
         out_is_f64 = False
+        out_is_float = False
         if out_aval_dtype is not None:
             try:
                 out_is_f64 = np.dtype(out_aval_dtype) == np.dtype(np.float64)
+                out_is_float = np.issubdtype(np.dtype(out_aval_dtype), np.floating)
             except TypeError:
                 out_is_f64 = False
 
@@ -554,6 +556,7 @@ class DivPlugin(PrimitiveLeafPlugin):
 
         if (
             not out_is_f64
+            and out_is_float  # ONNX Mean is float-only; integer division truncates
             and rhs_scalar is not None
             and np.isclose(rhs_scalar, 2.0)
             and getattr(lhs_producer, "op_type", "") == "Add"
